@@ -22,6 +22,8 @@ class NArr:
         self.dtype = dtype
         self.tag = tag
         self.ident = None     # optional z3 constant naming the array object (for `is` / frames)
+        self.cls_override = None   # ndarray subclass this array is an instance of (e.g. EnumArray)
+        self.attrs = {}            # extra instance attributes of such subclasses
 
     def __repr__(self):
         return f"NArr<{self.dtype}>(n={self.n},{self.tag})"
@@ -138,9 +140,21 @@ def arr_eq(I, ctx, a, b):
                   z3.ForAll([j], z3.Implies(z3.And(j >= 0, j < B._z(a.n)), B._zb(B.eq_formula(I, ctx, a.elem(j), b.elem(j))))))
 
 
+NP_TYPE_OF_TAG = {"int": "int64", "uint8": "uint8", "str": "str_", "object": "object_", "float": "float64", "bool": "bool_",
+                  "date": "datetime64"}
+
+
 def arr_getattr(I, ctx, a, name):
     def B_(fn):
         return Builtin("ndarray." + name, fn)
+    if name in a.attrs:
+        return a.attrs[name]
+    if a.cls_override is not None:
+        if name == "__class__":
+            return a.cls_override
+        attr, owner = a.cls_override.lookup(name)
+        if owner is not None and not owner.external:
+            return B.bind_descriptor(I, ctx, attr, a, a.cls_override)
     if name == "copy":
         return B_(lambda ctx, *x, **k: NArr(a.n, a.elem, a.dtype, "copy"))
     if name == "all":
@@ -166,7 +180,12 @@ def arr_getattr(I, ctx, a, name):
             a.elem = (lambda i, v=v: v)
         return B_(fill)
     if name == "view":
-        return B_(lambda ctx, *x: a)
+        def view(ctx, *x):
+            r = NArr(a.n, a.elem, a.dtype, "view")
+            if x and isinstance(x[0], ClassVal) and x[0] is not I.ndarray_class:
+                r.cls_override = x[0]
+            return r
+        return B_(view)
     if name == "sum":
         return B_(lambda ctx, *x, **k: arr_sum(I, ctx, a))
     if name == "T":
@@ -197,6 +216,8 @@ DTYPE_NAMES = {"float32": "float", "float64": "float", "float": "float", "int32"
 def dtype_tag(I, v):
     if isinstance(v, DType):
         return v.tag
+    if isinstance(v, ClassVal) and v.name in ("int", "float", "bool", "str", "object"):
+        return v.name
     if isinstance(v, str):
         return DTYPE_NAMES.get(v, v)
     if isinstance(v, ClassVal):
@@ -286,13 +307,44 @@ def install(I):
     def _empty(ctx, n, dtype=None):
         junk = z3.Function(ctx.fresh_name("uninit"), z3.IntSort(), z3.RealSort())
         return NArr(n if isinstance(n, int) else B.zint(n), lambda i: Sym(junk(B._z(i))), dtype_tag(I, dtype) or "float", "empty")
+    @ext("arange")
+    def _arange(ctx, n, dtype=None):
+        return NArr(n if isinstance(n, int) else B.zint(n), lambda i: B.wrap(B._z(i)), dtype_tag(I, dtype) or "int", "arange")
+
+    @ext("logical_not")
+    def _lnot(ctx, a):
+        return NArr(a.n, lambda i: B.wrap(z3.Not(B.zbool(a.elem(i)))), "bool", "not")
     I.ext["numpy"] = np_tab
 
     # core hooks: binop / compare / getattr / len / isinstance / getitem on NArr
     I.narr_hooks = True
 
 
+def mask_filter(I, ctx, a, mask):
+    """a[mask] (assumed numpy contract): the selected elements in order. Length CNT with 0 <= CNT <= n,
+    CNT == n iff every element is selected; element j is a[SEL(j)] with mask[SEL(j)] true, SEL(j) = j when all selected."""
+    ctx.assumed_ext.add("boolean-mask indexing a[mask]: selected elements in order; len == len(a) iff all selected")
+    n = zn(a)
+    cnt = ctx.fresh_int("cnt")
+    sel = z3.Function(ctx.fresh_name("SEL"), z3.IntSort(), z3.IntSort())
+    ctx.assume(z3.And(cnt >= 0, cnt <= n, B._z(mask.n) == n))
+    i = z3.Int("i_mask")
+    allsel = z3.ForAll([i], z3.Implies(z3.And(i >= 0, i < n), B.zbool(mask.elem(i))))
+    ctx.assume((cnt == n) == allsel)
+
+    def elem(j):
+        jz = B._z(j)
+        sj = sel(jz)
+        ctx.assume(z3.Implies(z3.And(jz >= 0, jz < cnt), z3.And(sj >= 0, sj < n, B.zbool(mask.elem(sj)), z3.Implies(cnt == n, sj == jz))))
+        return a.elem(smt.simp(sj))
+    r = NArr(cnt, elem, a.dtype, "masked")
+    r.mask_all = (lambda idx: z3.Implies(cnt == n, B.zbool(mask.elem(idx))))
+    return r
+
+
 def narr_getitem(I, ctx, a, k):
+    if isinstance(k, NArr) and k.dtype == "bool":
+        return mask_filter(I, ctx, a, k)
     if isinstance(k, (int, Sym)) and not isinstance(k, bool):
         i = B.norm_index(I, ctx, k, a.n)
         return a.elem(i)
